@@ -354,6 +354,18 @@ def run_job(job, target_dir, run_dir, jobs=None):
     return res
 
 
+def tree_fingerprint():
+    """HEAD + a hash of the uncommitted changes of the repository under test ("" if not a git tree)."""
+    try:
+        head = subprocess.run(["git", "-C", REPO, "rev-parse", "HEAD"], stdout=subprocess.PIPE,
+                              stderr=subprocess.DEVNULL).stdout.decode().strip()
+        diff = subprocess.run(["git", "-C", REPO, "diff", "HEAD"], stdout=subprocess.PIPE,
+                              stderr=subprocess.DEVNULL).stdout
+        return head + ":" + hashlib.sha256(diff).hexdigest()[:16]
+    except OSError:
+        return ""
+
+
 def features_of(job, res):
     """Narrow, declarative identity of a failing configuration (all values strings)."""
     f = {"kind": job["kind"],
@@ -449,9 +461,18 @@ def prepare_seed(run_dir, ncpu, n_workers, log):
             fresh = False
         if not fresh:
             ok = True
-            for crate in ("zvariant", "zbus"):
-                r = subprocess.run(["cargo", "check", "--offline", "--locked", "--all-features", "--manifest-path",
-                                    os.path.join(REPO, crate, "Cargo.toml")],
+            # Third-party crates (syn, serde, futures, ..) are compiled once per *unified feature set*,
+            # which differs between dependency graphs; seed the main graphs: every crate with no and
+            # with all features, zbus with each runtime.
+            variants = []
+            for crate in CRATES:
+                variants.append((crate, ["--no-default-features"] if crate != "zbus" else []))
+                variants.append((crate, ["--all-features"]))
+            for rt in ZBUS_RUNTIMES:
+                variants.append(("zbus", ["--no-default-features", "--features", rt]))
+            for crate, extra in variants:
+                r = subprocess.run(["cargo", "check", "--offline", "--locked", "--manifest-path",
+                                    os.path.join(REPO, crate, "Cargo.toml")] + extra,
                                    stdout=subprocess.DEVNULL, stderr=subprocess.DEVNULL,
                                    env=cargo_env(SEED_DIR, ncpu), cwd=run_dir)
                 ok = ok and r.returncode == 0
@@ -602,6 +623,7 @@ def main():
         return replay(replay_path, ncpu)
 
     t_start = time.time()
+    tree_before = tree_fingerprint()
 
     def log(msg):
         sys.stderr.write("[C35 %.0fs] %s\n" % (time.time() - t_start, msg))
@@ -681,6 +703,23 @@ def main():
         t.start()
     for t in threads:
         t.join()
+
+    # The repository may be edited by somebody else while this run is in progress (a half-applied
+    # change makes unrelated configurations fail).  Every failing configuration is therefore checked
+    # a second time at the end, one after the other; the verdict is the second observation.
+    tree_after = tree_fingerprint()
+    rechecked, recovered = 0, []
+    for idx, (job, res) in enumerate(zip(jobs, results)):
+        if res is None or res["exit"] == 0 or job["note"].startswith("control"):
+            continue
+        rechecked += 1
+        again = run_job(job, worker_dirs[0], _run_dir, ncpu)
+        if again["exit"] == 0:
+            recovered.append(describe(job))
+        results[idx] = again
+    if recovered:
+        log("%d configurations failed during the run but build now (repository edited concurrently?): %s"
+            % (len(recovered), "; ".join(recovered[:5])))
 
     # ---------------------------------------------------------------- verdicts (deterministic order)
     known = load_known()
@@ -814,6 +853,9 @@ def main():
                                     "examples": matched[k]["cases"][:4]} for k in sorted(matched)],
         "workers": workers,
         "repo": REPO,
+        "failing_configurations_rechecked": rechecked,
+        "failed_first_but_built_on_recheck": recovered,
+        "repository_changed_during_run": tree_before != tree_after,
     }
     if replays:
         cov["replays"] = replays
